@@ -13,7 +13,7 @@ Ties (every run):
    expressions) compares accept/reject and trees.
  * direct oracle: the text is read by `spec_parse`, a recursive-descent parser written straight from the Modelica
    specification's grammar B.2.7 (independent of printer, model and pymoca; it must return the source tree), and that
-   reading and the pymoca AST are evaluated over `fractions.Fraction` / bool / str at three environments; the values
+   reading and the pymoca AST are evaluated over `fractions.Fraction` / bool / str at six environments (three generic points, three with ties between variables); the values
    must agree.  In the malformed stream every text the specification derives is checked the same way.  Literals: exact value and Python
    type of integer / real (incl. exponent forms) / Boolean / escape-free string literals.
 """
@@ -29,7 +29,7 @@ from harness.common import HarnessError
 DRIVERS = ["drv_c03"]
 RULE = ("a case is one (expression tree, parenthesisation) pair printed to Modelica text, or one literal lexeme, or one "
         "token string of the malformed stream; non-trivial = the tree has at least two operator nodes (binary, unary, "
-        "power, if) and a defined value in at least one of the three environments, or (literals) the lexeme is not a "
+        "power, if) and a defined value in at least one of the six environments, or (literals) the lexeme is not a "
         "single digit; distinct = distinct text")
 TRUSTED = [
     "ANTLR's adaptive prediction follows the serialized ATN as the generated `expr` method's explicit precpred/expr(n) "
@@ -39,7 +39,9 @@ TRUSTED = [
 ASSUMPTIONS = [
     "expressions are the single-expression fragment: no `a:b:c` ranges, arrays, named arguments, multi-output "
     "parentheses; component references are opaque atoms (dotted names / integer subscripts)",
-    "string literals are escape-free (pymoca documents no unescaping)",
+    "string literals: the value is the text between the delimiters, escape sequences kept verbatim (pymoca documents "
+    "no unescaping); a literal ending in an escaped backslash is only used where no later `\"` follows in the file "
+    "(listed finding C03-F2)",
     "real literals are in double range; their exact value is the correctly rounded double of the decimal lexeme",
     "zero-argument calls `f()` / `initial()` are a separate stream (finding C03-F1, fixed in /repo by 3a63bdb; the "
     "stream stays as a regression check)",
@@ -653,6 +655,20 @@ def make_envs():
         e["name"] = strs[i]
         e["time"] = Fraction(i + 1, 2)
         ENVS.append(e)
+    # ties: points where the operands of relations evaluate equal (all variables equal; variables from a two-point
+    # set), so that `<` / `<=` / `not <` / `>` are told apart at their boundary
+    for val, b, nm in ((Fraction(2), True, "abc"), (Fraction(-3, 2), False, "")):
+        e = {v: val for v in NUMVARS}
+        e.update({v: b for v in BOOLVARS})
+        e["name"] = nm
+        e["time"] = val
+        ENVS.append(e)
+    e = dict(zip(NUMVARS, [Fraction(1), Fraction(1), Fraction(2), Fraction(2), Fraction(1), Fraction(2), Fraction(1),
+                          Fraction(2), Fraction(1)]))
+    e.update(zip(BOOLVARS, [True, True, False, False]))
+    e["name"] = "s"
+    e["time"] = Fraction(1)
+    ENVS.append(e)
     return ENVS
 
 
@@ -685,8 +701,29 @@ def gen_real_lexeme(rng):
 STR_ALPHABET = "abcXYZ 019_+-*/^<>=().,;:'{}[]!?#%&|~äé"
 
 
-def gen_string(rng):
-    return "".join(rng.choice(STR_ALPHABET) for _ in range(rng.randint(0, 8)))
+ESCAPES = ['\\"', "\\\\", "\\n", "\\t", "\\'", "\\?", "\\a"]
+
+
+def gen_string(rng, tail_backslash_ok=False):
+    """Content of a string literal: plain characters and escape sequences (kept verbatim by pymoca: no unescaping),
+    escapes at the start, in the middle and at the END with good probability.  A content ending in an escaped
+    backslash is only produced for the single-literal stream (see finding C03-F2)."""
+    n = rng.randint(0, 6)
+    pieces = []
+    for _ in range(n):
+        pieces.append(rng.choice(ESCAPES) if rng.random() < 0.3 else rng.choice(STR_ALPHABET))
+    if rng.random() < 0.25:
+        pieces.insert(0, rng.choice(ESCAPES))
+    if rng.random() < 0.35:
+        pieces.append(rng.choice(ESCAPES))
+    if not tail_backslash_ok:
+        while pieces and pieces[-1] == "\\\\":
+            pieces.pop()
+    return "".join(pieces)
+
+
+FIXED_STRINGS = ['\\"', 'say \\"hi\\"', '\\"\\"', 'x\\"', '\\"x', 'x\\"y', "\\\\", "a\\\\", "\\\\\\\"", "\\n", "", " ",
+                 "\\\\ \\\"", "a'b", "\\t\\\""]
 
 
 class Gen:
@@ -747,7 +784,12 @@ class Gen:
                 return ["bin", rng.choice(RELOPS), self.str_atom(), self.str_atom()]
             if rng.random() < 0.1:
                 return ["bin", rng.choice(["==", "<>", "<", ">="]), self.boolean(d - 1), self.boolean(d - 1)]
-            return ["bin", rng.choice(RELOPS), self.num(d - 1), self.num(d - 1)]
+            left = self.num(d - 1)
+            if rng.random() < 0.2:
+                # forced tie: both operands of the relation have the same value in every environment
+                right = left if rng.random() < 0.6 else ["bin", "+", left, ["num", "0"]]
+                return ["bin", rng.choice(RELOPS), left, right]
+            return ["bin", rng.choice(RELOPS), left, self.num(d - 1)]
         if r < 0.50:
             return ["bin", "and", self.boolean(d - 1), self.boolean(d - 1)]
         if r < 0.70:
@@ -1025,6 +1067,12 @@ def check_literal(ctx, drv, kind, lex):
     else:
         if not (isinstance(v, bool) and v == lex):
             ctx.violation("Boolean literal not parsed to its exact value", case, expected=lex, observed=repr(v))
+    if drv is not None and kind == "str":
+        ans = drv.ask({"op": "strlit", "lexeme": text})
+        if not ans.get("ok") or ans.get("value") != lex:
+            raise HarnessError("model string literal value of %r is %r" % (text, ans))
+        if not (isinstance(v, str) and v == ans["value"]):
+            ctx.disagreement("literal", case, model=ans["value"], impl=repr(v))
     if drv is not None and kind == "num":
         ans = drv.ask({"op": "lit", "lexeme": lex})
         if not ans.get("ok"):
@@ -1069,7 +1117,7 @@ def check_empty_call(ctx, drv, tree):
 
 def check_case(ctx, drv, c):
     k = c.get("kind")
-    if k in ("tree", "pairs"):
+    if k in ("tree", "pairs", "strtail"):
         check_tree(ctx, drv, c["tree"], k)
     elif k == "tokens":
         check_tokens(ctx, drv, c["tokens"])
@@ -1445,6 +1493,12 @@ def run(ctx):
               ["bin", "-", ["call", "max", [["call", "f", []], ["ref", "x"]]], ["num", "1"]]):
         ctx.count("stream-emptycall")
         check_empty_call(ctx, drv, t)
+    # strings ending in an escaped backslash with a later quote in the text (listed finding C03-F2), kept apart
+    for t in (["bin", "==", ["str", "a\\\\"], ["str", "b"]],
+              ["bin", "or", ["bin", "==", ["ref", "name"], ["str", "C:\\\\dir\\\\"]], ["bin", "<>", ["ref", "name"], ["str", ""]]],
+              ["call", "f", [["str", "\\\\"], ["str", "x\\\""]]]):
+        ctx.count("stream-strtail")
+        check_tree(ctx, drv, t, "strtail")
     # systematic operator pairs, minimal parentheses and fully parenthesised
     for t in pair_trees():
         ctx.count("stream-pairs")
@@ -1459,7 +1513,7 @@ def run(ctx):
         elif r < 0.8:
             kind, lex = "num", gen_real_lexeme(rng)
         elif r < 0.95:
-            kind, lex = "str", gen_string(rng)
+            kind, lex = "str", gen_string(rng, tail_backslash_ok=True)
         else:
             kind, lex = "bool", rng.random() < 0.5
         ctx.count("literal-" + (kind if kind != "num" else ("int" if lex.isdigit() else "real")))
@@ -1468,6 +1522,9 @@ def run(ctx):
                 "0.30000000000000004", "123456789012345678901234567890", "4.9e-324", "1.7976931348623157e308", "2.5e-1"]:
         ctx.count("literal-fixed")
         check_literal(ctx, drv, "num", lex)
+    for lex in FIXED_STRINGS:
+        ctx.count("literal-fixed-str")
+        check_literal(ctx, drv, "str", lex)
     # random typed trees, two parenthesisations each
     ntree = 1100 if quick else 30000
     g = Gen(rng, 6)
